@@ -28,7 +28,8 @@ def load_known():
 
 
 class Ctx:
-    def __init__(self, prop, tier='quick', root='/repo', quiet=False):
+    def __init__(self, prop, tier='quick', root='/repo', quiet=False, factsdir=None):
+        self.factsdir = factsdir
         self.prop = prop
         self.tier = tier
         self.root = os.path.abspath(root)
@@ -47,7 +48,7 @@ class Ctx:
     @property
     def facts(self):
         if self._facts is None:
-            self._facts = Facts(self.root)
+            self._facts = Facts(self.root, self.factsdir)
             self.counts['units_parsed'] = len(self._facts.units)
             self.counts['functions_in_program'] = self._facts.nfuncs
         return self._facts
@@ -208,6 +209,53 @@ def apply_patch(dirpath, patch):
     return r.returncode == 0, r.stdout
 
 
+def touched_files(patch):
+    out = []
+    with open(patch) as f:
+        for line in f:
+            if line.startswith('+++ '):
+                t = line[4:].split('\t')[0].strip()
+                if t.startswith('b/'):
+                    t = t[2:]
+                out.append(t)
+    return out
+
+
+def incremental_facts(ctx, scratch, patch):
+    """Facts for a patched scratch copy.  When the patch touches only translation units (no header),
+    only those units are re-extracted on top of a copy of the base facts; otherwise a full extraction
+    happens (return None -> Facts extracts into the cache keyed by the scratch tree's fingerprint)."""
+    from . import extract as ex
+    files = touched_files(patch)
+    cpp = [f for f in files if f.endswith('.cpp') and f in ex.units(scratch)]
+    other = [f for f in files if f.endswith(('.h', '.hpp'))]
+    if other or ctx._facts is None:
+        if not any(f.endswith(('.cpp', '.h')) for f in files) and ctx._facts is not None:
+            return ctx._facts.dir     # patch does not touch C++ at all: the base facts are the facts
+        return os.path.join(scratch, '.facts_full')
+    base = ctx._facts.dir
+    nd = os.path.join(scratch, '.facts')
+    shutil.copytree(base, nd)
+    for u in cpp:
+        uu = u.replace('/', '!')
+        for c in os.listdir(os.path.join(nd, 'claims')):
+            cp = os.path.join(nd, 'claims', c)
+            if open(cp).read().strip() == uu:
+                os.unlink(cp)
+        for suf in ('.idx.jsonl', '.body.jsonl'):
+            try:
+                os.unlink(os.path.join(nd, uu + suf))
+            except OSError:
+                pass
+    ex.build_tool()
+    for u in cpp:
+        r = subprocess.run([ex.BIN, '--out', nd, '--root', scratch, os.path.join(scratch, u), '--'] + ex.flags(scratch),
+                           stdout=subprocess.PIPE, stderr=subprocess.STDOUT, text=True)
+        if r.returncode != 0 or 'error:' in r.stdout:
+            raise AnalysisBroken('mutant %s does not compile: %s' % (patch, r.stdout[-600:]))
+    return nd
+
+
 def run_module(prop, tier, root, quiet=False, write_evidence=True):
     mod = importlib.import_module('rules.' + prop)
     ctx = Ctx(prop, tier, root, quiet=quiet)
@@ -244,7 +292,7 @@ def self_validate(ctx, mod):
                 ctx.mutants.append({'patch': os.path.relpath(p, VERIF), 'status': 'does-not-apply', 'detail': out[-300:]})
                 raise AnalysisBroken('mutant %s does not apply to the current tree: %s' % (p, out[-300:]))
             try:
-                sub = Ctx(ctx.prop, 'quick', d, quiet=True)
+                sub = Ctx(ctx.prop, 'quick', d, quiet=True, factsdir=incremental_facts(ctx, d, p))
                 mod.run(sub)
                 new = [o for o in sub.failing() if o['key'] not in base_fail]
                 hit = [o for o in new if (expect is None or expect in o['key'])]
